@@ -249,7 +249,21 @@ fn cli_view_case(t: &mut Tape, w: &Worker) -> CaseResult {
     p.words = indexed_words(n);
     p.pad = ff;
     p.fix_sizes();
-    let stream = Stream::single(Link { packets: vec![p], barrel: Barrel::Inner, lane_ids: vec![] });
+    // a third of the cases: a packet of the OTHER data format comes first (each packet is cut and placed by its own format)
+    let mixed = t.chance(1, 3);
+    let mut packets = vec![];
+    if mixed {
+        let r0 = Rdh { fee_id: fee_id(0, 0, 1), format_word: if fmt0 { 2 } else { 0 }, ..Rdh::default() };
+        let mut p0 = Packet::new(r0);
+        p0.words = indexed_words(2);
+        // (format 2: bytes 10..15 must not all be zero or the layout reads as 16-byte slots)
+        p0.words[1][0] = 0x5A;
+        p0.fix_sizes();
+        packets.push(p0);
+        p.rdh.pages_counter = 1;
+    }
+    packets.push(p);
+    let stream = Stream::single(Link { packets, barrel: Barrel::Inner, lane_ids: vec![] });
     let (bytes, lay) = stream.encode();
     let mut case = CliCase::new(w, bytes.clone());
     let (spec, o) = case.run(vec!["view".into(), "its-readout-frames-data".into(), "-d".into()], t.chance(1, 2));
@@ -258,7 +272,11 @@ fn cli_view_case(t: &mut Tape, w: &Worker) -> CaseResult {
     }
     let re = regex::Regex::new(r"^\s*([0-9A-F]+): DATA \[((?:[0-9A-F]{2} ){9}[0-9A-F]{2})\]").unwrap();
     let rows: Vec<(u64, String)> = cli::strip_ansi(&o.stdout_str()).lines().filter_map(|l| re.captures(l).map(|c| (u64::from_str_radix(&c[1], 16).unwrap_or(0), c[2].to_string()))).collect();
-    let want: Vec<(u64, String)> = (0..n).map(|i| (stream.word_offset(&lay, 0, i), word_hex(&stream.packet(&lay, 0).words[i]))).collect();
+    let mut want: Vec<(u64, String)> = vec![];
+    for pk in 0..lay.packets.len() {
+        let nw = stream.packet(&lay, pk).words.len();
+        want.extend((0..nw).map(|i| (stream.word_offset(&lay, pk, i), word_hex(&stream.packet(&lay, pk).words[i]))));
+    }
     if rows != want {
         let i = rows.iter().zip(want.iter()).position(|(a, b)| a != b).unwrap_or(rows.len().min(want.len()));
         return Err(Fail::new(
@@ -272,6 +290,9 @@ fn cli_view_case(t: &mut Tape, w: &Worker) -> CaseResult {
     out.fingerprint = fnv64(&bytes);
     out.execs = case.execs;
     out.labels.push(format!("view:{}", if fmt0 { "format0" } else { "format2" }));
+    if mixed {
+        out.labels.push("view:other_format_first".into());
+    }
     if w.take_sample() {
         out.sample = Some(json!({"kind": "cli view", "format0": fmt0, "n_words": n, "trailing_ff": ff}));
     }
@@ -292,7 +313,7 @@ pub fn build() -> Property {
             Phase { name: "chunker", kind: PhaseKind::Gen { cases: (300000, 3000000), tape_len: 8, f: Box::new(chunk_case) }, threads: 16 },
             Phase { name: "examined_once", kind: PhaseKind::Gen { cases: (100000, 1000000), tape_len: 8, f: Box::new(examined_once_case) }, threads: 16 },
             Phase { name: "overpadding_reset", kind: PhaseKind::Gen { cases: (4000, 30000), tape_len: 8, f: Box::new(reset_case) }, threads: 16 },
-            Phase { name: "cli_data_view", kind: PhaseKind::Gen { cases: (2500, 15000), tape_len: 8, f: Box::new(cli_view_case) }, threads: 16 },
+            Phase { name: "cli_data_view", kind: PhaseKind::Gen { cases: (2500, 15000), tape_len: 10, f: Box::new(cli_view_case) }, threads: 16 },
         ],
     }
 }
